@@ -1183,16 +1183,22 @@ def rr_post(c, p):
     if cr:
         if len(cr) != 1 or not br or cr[0][1][1][0] != "val":
             return "false"
-        # what the application will never read is returned to the peer as connection-level credit
-        conj.append(eq(cr[0][1][1][1].t, "(bvsub %s %s)" % (fin, br[0][2])))
+        # what the application will never read is returned to the peer as connection-level credit - ONCE: a stopped
+        # stream was already credited for everything it received (at stop() and as data arrived), an open one only
+        # for what the application read
+        rsp = str(x[1][0][1])                  # the Recv the reset was applied to
+        snap2 = _Snap(st, cr[0][3])
+        stopped = c.ex.read_key(snap2, rsp + ".%d" % c.field("connection/streams/recv.rs", "Recv", "stopped"), BOOL).t
+        end = c.ex.read_key(snap2, rsp + ".%d" % c.field("connection/streams/recv.rs", "Recv", "end"), BV64).t
+        conj.append(eq(cr[0][1][1][1].t, "(bvsub %s %s)" % (fin, ite(stopped, end, br[0][2]))))
     return and_(*conj)
 
 
 Q(name="e2_streams_received_reset", props=["C06", "C11"], func=r"state\.rs:144:1[^>]*>::received_reset$",
   pure=[r"Assembler::bytes_read$"], inline=[r"VarInt::into_inner$", r"u64 as From<VarInt>>::from$"], allowed_panics=r"attempt to|unwrap_failed",
   functions=["StreamsState::received_reset"], pre=lambda c: "true", post=rr_post,
-  bounds="every stream lookup outcome and every verdict of Recv::reset (covered by recv_reset): reset is given this frame's error code and final offset, the connection's data_recvd and OUR local_max_data as they are at that moment; an error is returned as is; the credit handed back is final_offset - bytes_read",
-  replay=("streams_received_reset_native", lambda m: [dict(over=0), dict(over=1)]))
+  bounds="every stream lookup outcome and every verdict of Recv::reset (covered by recv_reset): reset is given this frame's error code and final offset, the connection's data_recvd and OUR local_max_data as they are at that moment; an error is returned as is; the credit handed back is final_offset minus what was already credited (everything received on a stopped stream, everything read on an open one)",
+  replay=("streams_stop_then_reset_credit_native", lambda m: [dict(buffered=100, extra=0), dict(buffered=100, extra=50), dict(buffered=0, extra=50)]))
 
 
 # ------------------------------------------------------------------ C16 / C13: a DATAGRAM frame is written only if the frame AS ENCODED fits the remaining packet space
